@@ -39,6 +39,7 @@ type pair struct {
 	accKeyMap                 map[string]string
 	lastAlloc                 channel.Allocation
 	lastData                  channel.Data
+	lastOpenErr               error
 
 	mu      sync.Mutex
 	ops     []*opRec
@@ -218,6 +219,7 @@ func (p *pair) open(step int, side int, st *kernel.Step) int {
 	o.end, o.err, o.class = p.s.Now(), err, classify(err)
 	p.record(o)
 	p.s.Event(me.Name, "driver:open", fmt.Sprintf("err=%v", err))
+	p.lastOpenErr = err
 	if err != nil || ch == nil {
 		if o.class == "timeout" {
 			p.setTimeout()
@@ -235,6 +237,10 @@ func (p *pair) open(step int, side int, st *kernel.Step) int {
 	}
 	if other == nil {
 		p.s.Note("open: peer never obtained the channel")
+		p.s.Count("probe.peer_never_obtained_channel", 1)
+		if p.s.Sc.Property == "C08" {
+			p.s.Fail("C08.responder-without-channel", "ProposeChannel returned a funded channel but the responder's Accept never produced one")
+		}
 		return -1
 	}
 	pairCh := [2]*client.Channel{}
